@@ -106,6 +106,8 @@ def coerce_const(v, kind):
     raise CheckerError('cannot coerce constant %r to %r' % (v, kind))
 
 
+_atom = z3.Function('atom', S, I)
+_name_str = z3.Function('name_str', I, S)
 _name_atoms = {}
 
 
@@ -127,7 +129,7 @@ def default_term(sort):
         return zbool(False)
     if sort == S:
         return z3.StringVal('')
-    if z3.is_array_sort(sort):
+    if isinstance(sort, z3.ArraySortRef):
         return z3.K(sort.domain(), default_term(sort.range()))
     raise CheckerError('no default for sort %s' % sort)
 
@@ -169,7 +171,10 @@ def coerce(v, kind):
             terms += list(coerce(sub, ok).t)
         return SVal(kind, terms)
     if kind == KName and k == KStr:
-        raise CheckerError('Str used where Name expected')
+        # atom of a string: injective (name_str is its inverse), positive
+        a = _atom(v.z)
+        add_axiom(z3.And(_name_str(a) == v.z, a > 0))
+        return SVal(KName, [a])
     raise CheckerError('cannot coerce %r to %r' % (k, kind))
 
 
@@ -400,12 +405,13 @@ def equal(a, b):
         return zand(*[equal(x, y) for x, y in zip(ia, ib)])
     if isinstance(ka, (KSet, KDict, KCounter, KList)) and ka == kb:
         if isinstance(ka, KList):
-            raise CheckerError('list equality not supported')
+            return zand(*[x == y for x, y in zip(a.t, b.t)])
         if isinstance(ka, KSet):
             return a.t[0] == b.t[0]
         if isinstance(ka, KCounter):
             return a.t[0] == b.t[0]
-        raise CheckerError('dict equality not supported')
+        # representation equality (stronger than Python ==): used by specs for "unchanged"
+        return zand(*[x == y for x, y in zip(a.t, b.t)])
     if ka != kb:
         # different primitive kinds never equal in Python (str vs int ...)
         return False
@@ -490,7 +496,7 @@ def arith(op, a, b):
         ib = tuple_items(b) if isinstance(kb, (KVec,)) or isinstance(b, TupleVal) else [b] * 3
         return SVal(KVec3, [coerce(lift(arith(op, x, y)), KReal).z for x, y in zip(ia, ib)])
     if ka == KStr and kb == KStr and op == '+':
-        return SVal(KStr, [z3.Concat(lift(a).z, lift(b).z)])
+        return SVal(KStr, [str_concat([lift(a).z, lift(b).z])])
     if isinstance(ka, KExt) or isinstance(kb, KExt):
         a2, b2 = coerce(lift(a), KExtReal), coerce(lift(b), KExtReal)
         if op == '+':
@@ -526,6 +532,29 @@ def arith(op, a, b):
     if op == '**' and k == KInt:
         return SI(int_pow(za, zb))
     raise CheckerError('arith %s on %r' % (op, k))
+
+
+def str_concat(parts):
+    """n-ary, flattened concatenation (canonical form helps congruence)."""
+    flat = []
+    for p in parts:
+        if z3.is_app(p) and p.decl().kind() == z3.Z3_OP_SEQ_CONCAT:
+            flat += list(p.children())
+        elif z3.is_string_value(p) and p.as_string() == '':
+            continue
+        else:
+            flat.append(p)
+    merged = []
+    for p in flat:
+        if merged and z3.is_string_value(p) and z3.is_string_value(merged[-1]):
+            merged[-1] = z3.StringVal(merged[-1].as_string() + p.as_string())
+        else:
+            merged.append(p)
+    if not merged:
+        return z3.StringVal('')
+    if len(merged) == 1:
+        return merged[0]
+    return z3.Concat(*merged)
 
 
 def pydiv(a, b):
